@@ -134,7 +134,9 @@ func genHist(g *G, n int, out io.Writer) {
 		// with its top-level nodes in the opposite order - documents that differ, however little, are different documents
 		var nearCopies [][2]string
 		for _, d := range pool[:1] {
-			for _, v := range []string{strings.Replace(d, `"cc"`, `"c c"`, 1), strings.Replace(d, `"ddd"`, `"d\tdd"`, 1), strings.Replace(d, `"true"`, `" true"`, 1), strings.Replace(d, `:[1`, `:[10`, 1)} {
+			for _, v := range []string{strings.Replace(d, `"cc"`, `"c c"`, 1), strings.Replace(d, `"ddd"`, `"d\tdd"`, 1), strings.Replace(d, `"true"`, `" true"`, 1), strings.Replace(d, `:[1`, `:[10`, 1),
+				// (a blank inside a class IRI or a node id: another class, another node - every report about that node shows it)
+				strings.Replace(d, `"`+NS+`T"`, `"`+NS+`T "`, 1), strings.Replace(d, `"@id":"`+nodeId(0)+`"`, `"@id":"`+nodeId(0)+` "`, 1), strings.Replace(d, `"`+NS+`U"`, `"`+NS+` U"`, 1)} {
 				if v != d {
 					pool = append(pool, v, d)
 					kinds = append(kinds, "graph-near-copy", "graph")
